@@ -160,6 +160,7 @@ Constructed == <<
   D("Q-def2", TSeq(<<Df(I07, I(0)), Df(TBool, TRUE), O(TNull)>>, FALSE, <<>>)),
   D("Q-defstr", TSeq(<<Df(IA5, <<65, 66>>), C(I07)>>, FALSE, <<>>)),
   D("Q-ext0", TSeq(<<C(I07)>>, TRUE, <<>>)),
+  D("Q-extal", TSeq(<<C(TInt(R(0, 127)))>>, TRUE, <<O(TOctets(CNone))>>)),       \* its additions start octet-aligned in PER
   D("Q-ext1", TSeq(<<C(I07), O(TBool)>>, TRUE, <<C(Int0)>>)),
   D("Q-ext2", TSeq(<<C(TBool)>>, TRUE, <<C(IA5), O(I07)>>)),
   D("Q-ext3", TSeq(<<>>, TRUE, <<C(TBool), C(TOctets(CNone)), C(TNull)>>)),
@@ -226,6 +227,7 @@ CommonDefs == <<
   D("Q-ooo", TSeq(<<O(Int0), O(TBool), O(IA5)>>, FALSE, <<>>)),
   D("Q-def", TSeq(<<Df(Int0, I(3)), C(TBool)>>, FALSE, <<>>)),
   D("Q-ext1", TSeq(<<C(I07), O(TBool)>>, TRUE, <<C(Int0)>>)),
+  D("Q-extal", TSeq(<<C(TInt(R(0, 127)))>>, TRUE, <<O(TOctets(CNone))>>)),       \* its additions start octet-aligned in PER
   D("Q-extdef", TSeq(<<C(I07)>>, TRUE, <<Df(Int0, I(3)), O(TBool)>>)),
   \* an extensible type with additions present, carried inside an extension addition (an open type in PER / OER)
   D("Q-extnest", TSeq(<<C(I07)>>, TRUE, <<C(TRef("Q-ext1")), O(TRef("K-ext2"))>>)),
